@@ -231,7 +231,7 @@ func (c *EWCase) Run() string {
 					bv, ok = cmpop(c.Op, sc, A.arr.E[k])
 				}
 				v = bv
-				if c.SameType || c.Mode == "unsafe" || c.Mode == "reuseA" || c.Mode == "reuseB" {
+				if c.SameType || c.Mode == "unsafe" || c.Mode == "reuseA" || c.Mode == "reuseB" || c.Mode == "reuseAv" || c.Mode == "reuseBv" {
 					if bv {
 						v = oneOf(d)
 					} else {
@@ -278,12 +278,12 @@ func (c *EWCase) Run() string {
 		}
 	}
 	resDT := d
-	if c.Fam == "cmp" && !(c.SameType || c.Mode == "unsafe" || c.Mode == "reuseA" || c.Mode == "reuseB") {
+	if c.Fam == "cmp" && !(c.SameType || c.Mode == "unsafe" || c.Mode == "reuseA" || c.Mode == "reuseB" || c.Mode == "reuseAv" || c.Mode == "reuseBv") {
 		resDT = dtBool
 	}
 	// ---- destination
 	var Dst *opndB
-	var dstT *tensor.Dense
+	var dstT, aliasView *tensor.Dense
 	var opts []tensor.FuncOpt
 	switch c.Mode {
 	case "safe":
@@ -306,6 +306,19 @@ func (c *EWCase) Run() string {
 	case "reuseB":
 		dstT = B.b.T
 		opts = append(opts, tensor.WithReuse(dstT))
+	case "reuseAv", "reuseBv":
+		// a different *Dense over the very memory of an operand: a view of the whole of it
+		src := A
+		if c.Mode == "reuseBv" {
+			src = B
+		}
+		v, err := src.b.T.Slice()
+		if err != nil {
+			return inconclusive
+		}
+		dstT = v.(*tensor.Dense)
+		aliasView = dstT
+		opts = append(opts, tensor.WithReuse(dstT))
 	default:
 		panic("HARNESS: unknown mode " + c.Mode)
 	}
@@ -319,9 +332,9 @@ func (c *EWCase) Run() string {
 		dest = A
 	case "reuse", "incr":
 		dest = Dst
-	case "reuseA":
+	case "reuseA", "reuseAv":
 		dest = A
-	case "reuseB":
+	case "reuseB", "reuseBv":
 		dest = B
 	}
 	// ---- the call
@@ -398,7 +411,11 @@ func (c *EWCase) Run() string {
 			return desc + ": safe mode returned an operand"
 		}
 	default:
-		if rd != dest.b.T {
+		if aliasView != nil {
+			if rd != aliasView {
+				return desc + ": returned tensor is not the reuse tensor"
+			}
+		} else if rd != dest.b.T {
 			return desc + fmt.Sprintf(": returned tensor is not the designated destination (%s)", c.Mode)
 		}
 	}
